@@ -14,7 +14,7 @@ ID = "C17"
 VARS = ["a", "a1", "a12", "a2", "b", "b1", "b12", "b2", "c", "ab"]
 RULE = ("case = an expression tree (<= 14 nodes) over kingdon's RationalPolynomial (or, in 'poly' mode, Polynomial) objects built "
         "only through what code generation uses: fromname / list constructors, + - * /, unary -, **n (n >= 1; negative for "
-        "RationalPolynomial), inv(), ints and dyadic floats on either side, division by ints; variable names as code "
+        "RationalPolynomial), augmented assignment (+=, -=, *=) on an accumulator, inv(), ints and dyadic floats on either side, division by ints; variable names as code "
         "generation makes them (a, a1, a12, b2, ... prefix-related on purpose); zero sub-results generated on purpose (x-x, "
         "0*x, k*x - x*k). Every node of the tree is evaluated in kingdon and in an independent exact rational-function ring. "
         "Non-trivial = >= 3 operations AND >= 2 variables AND (some node is identically zero OR some node has a "
@@ -37,7 +37,9 @@ def budget(tier):
 
 
 def _tree(depth, poly):
-    leaf = st.one_of(st.sampled_from(VARS).map(lambda v: ["var", v]), st.sampled_from(VARS[:4]).map(lambda v: ["var", v]),
+    lin = st.tuples(st.lists(st.sampled_from(VARS), min_size=2, max_size=3, unique=True), st.sampled_from([0, 1, -2, 3])).map(
+        lambda t: ["lin", sorted(t[0]), t[1]])     # a multi-term polynomial leaf (a + b12 + 1): multi-term denominators
+    leaf = st.one_of(st.sampled_from(VARS).map(lambda v: ["var", v]), st.sampled_from(VARS[:4]).map(lambda v: ["var", v]), lin,
                      st.sampled_from([0, 1, 2, 3, -1, -2, 5]).map(lambda n: ["int", n]),
                      st.sampled_from([0.5, -0.25, 2.0, 1.5]).map(lambda x: ["float", x]))
 
@@ -46,7 +48,8 @@ def _tree(depth, poly):
                st.tuples(st.just("mul"), children, children), st.tuples(st.just("mul"), children, children),
                st.tuples(st.just("neg"), children), st.tuples(st.just("pow"), children, st.sampled_from([1, 2, 2, 3, 4] + ([] if poly else [-1, -2]))),
                st.tuples(st.just("divint"), children, st.sampled_from([2, 4, 3, -2, 5])),
-               st.tuples(st.just("zero"), children, st.sampled_from(["x-x", "0*x", "x*0", "kx-xk"]))]
+               st.tuples(st.just("zero"), children, st.sampled_from(["x-x", "0*x", "x*0", "kx-xk"])),
+               st.tuples(st.just("aug"), children, children, st.sampled_from(["+=", "-=", "*=", "+=", "x*1;+=", "0+x;+="]))]
         if not poly:
             ops += [st.tuples(st.just("div"), children, children), st.tuples(st.just("inv"), children)]
         return st.one_of(*ops).map(list)
@@ -85,6 +88,13 @@ def _eval(tree, mode, nodes):
         res = (cls.fromname(tree[1]), Q.var(tree[1]), True)
     elif k in ("int", "float"):
         res = (tree[1], Q.lift(tree[1]), True)
+    elif k == "lin":
+        kv = tree[2]
+        qv = Q.lift(tree[2])
+        for v in tree[1]:
+            kv = cls.fromname(v) + kv
+            qv = Q.var(v) + qv
+        res = (kv, qv, True)
     else:
         subs = [_eval(c, mode, nodes) for c in tree[1:] if isinstance(c, list)]
         exact = all(s[2] for s in subs)
@@ -144,6 +154,21 @@ def _eval(tree, mode, nodes):
             kv, qv = kk(lambda: a[0] / n), a[1] / n
             if n not in (2, 4, -2) or not isinstance(a[0], (Polynomial, RationalPolynomial)):
                 exact = exact and (n in (2, 4, -2))
+        elif k == "aug":
+            # augmented assignment on an accumulator (acc = a; acc += b): must denote a (+,-,*) b and leave a itself alone
+            b = subs[1]
+            how = tree[3]
+            import operator
+            acc = a[0]
+            if how.startswith("x*1"):
+                acc = kk(lambda: a[0] * 1)
+            elif how.startswith("0+x"):
+                acc = kk(lambda: 0 + a[0])
+            opn = how.split(";")[-1]
+            fn2 = {"+=": operator.iadd, "-=": operator.isub, "*=": operator.imul}[opn]
+            fq = {"+=": operator.add, "-=": operator.sub, "*=": operator.mul}[opn]
+            kv = kk(lambda: fn2(acc, b[0]))
+            qv = fq(a[1], b[1])
         elif k == "zero":
             how = tree[2]
             if how == "x-x":
@@ -159,7 +184,7 @@ def _eval(tree, mode, nodes):
         else:
             raise HarnessError(f"unknown node {k}")
         for s, before in zip(subs, snap):
-            if isinstance(s[0], (Polynomial, RationalPolynomial)) and s[0] != before and _struct(s[0]) != _struct(before):
+            if isinstance(s[0], (Polynomial, RationalPolynomial)) and _struct(s[0]) != _struct(before):
                 raise Violation("operands-not-mutated", k, f"{k} changed its operand from {_show(before)} to {_show(s[0])}")
         res = (kv, qv, exact)
     nodes.append((tree, res[0], res[1], res[2]))
@@ -266,7 +291,7 @@ def evaluate(case):
         return Info(False, ["discarded"], None, {"discarded:" + str(dsc): 1})
     import sympy
     nops = sum(1 for n in nodes if n[0][0] not in ("var", "int", "float"))
-    variables = {n[0][1] for n in nodes if n[0][0] == "var"}
+    variables = {n[0][1] for n in nodes if n[0][0] == "var"} | {v for n in nodes if n[0][0] == "lin" for v in n[0][1]}
     has_zero = False
     has_den = False
     objs = []
